@@ -14,14 +14,14 @@ from mc.core import R
 
 LEVEL = "model_checking"
 RULE = ("all histories [link-op]^<=k ; delete|unlink ; [delete] over the alphabet of mc/ops.py restricted to "
-        "link-creating operations (link, set_meta, set_ref, create_feature) followed by every delete "
+        "link-creating operations (link, set_meta, set_ref incl. the same array as positions and extents, create_feature, section link) followed by every delete "
         "(by name/id/index/negative index/object) and every unlink; seeds rich (k=0, chains), mini (k<=1 quick, "
         "k<=2 thorough), block (k<=1 thorough); non-trivial = last operation accepted by the model")
 ASSUMPTIONS = [
     "small-scope hypothesis: link topologies with at most k additional links on top of the seed's links",
     "dimension links (array -> array) are not in the statement's list of link kinds; covered in C05",
 ]
-LINKING = {"only": {"link", "set_meta", "set_ref", "create_feature"}, "pred": lambda op: not (op[0] == "set_meta" and op[2] is None) and not (op[0] == "set_ref" and op[3] is None)}
+LINKING = {"only": {"link", "set_meta", "set_ref", "create_feature", "set_link"}, "pred": lambda op: not (op[0] == "set_meta" and op[2] is None) and not (op[0] == "set_ref" and op[3] is None)}
 LINKING_THIN = dict(LINKING, nsecs=1, narr=2, nsrc=2)
 REMOVING = {"only": {"delete", "unlink", "set_meta", "set_ref"}, "delete_modes": True,
             "pred": lambda op: (op[0] != "set_meta" or op[2] is None) and (op[0] != "set_ref" or op[3] is None)}
@@ -32,8 +32,9 @@ WALL_CAP = {"quick": 900, "thorough": 7200}
 
 def BOUNDS(tier):
     if tier == "quick":
-        return {"rich": "k=0: every delete x 5 addressing modes, every unlink; chains of 2 deletes by name on mini/light",
-                "mini": "k<=1 then every removal (all addressing modes)"}
+        return {"rich": "k=0: every delete x 5 addressing modes (features also by data name/id), every unlink; chains of 2 deletes by name on mini/light",
+                "mini": "k<=1 then every removal (all addressing modes)", "block": "k<=1 (thin) then every removal by name",
+                "light": "k<=1 (section links, metadata) then every removal by name"}
     return {"rich": "k=0 all removals; chains of 2 removals by name; k=1 (thin) then removal by name",
             "mini": "k<=2 then every removal", "block": "k<=1 then every removal"}
 
@@ -51,6 +52,8 @@ def cases(tier):
     add("mini", explorer.enumerate_histories("mini", 2, [LINKING, REMOVING]))
     add("mini", explorer.enumerate_histories("mini", 2, [REMOVING_NAME, REMOVING_NAME]))
     add("light", explorer.enumerate_histories("light", 2, [REMOVING_NAME, REMOVING_NAME]))
+    add("block", explorer.enumerate_histories("block", 2, [LINKING_THIN, REMOVING_NAME]))
+    add("light", explorer.enumerate_histories("light", 2, [dict(LINKING_THIN, only={"set_link", "set_meta"}), REMOVING_NAME]))
     if tier == "thorough":
         add("rich", explorer.enumerate_histories("rich", 2, [REMOVING_NAME, REMOVING_NAME]))
         add("rich", explorer.enumerate_histories("rich", 2, [LINKING_THIN, REMOVING_NAME]))
